@@ -708,8 +708,8 @@ def proxy_keys(ctx: Ctx) -> None:
 
 ASSERT_GEOM = {"shape", "chunks", "numblocks", "chunksize", "ndim", "npartitions", "size"}
 
-exception("ASSERT-1", f"{A.OPS}.blockwise:assert:len(arrays) > 0", "every library caller passes at least one array operand (checked as instances of this rule)")
-exception("ASSERT-1", f"{A.OPS}._general_blockwise:assert:len(arrays) > 0", "every library caller passes at least one array operand (checked as instances of this rule)")
+exception("ASSERT-1", f"{A.OPS}.blockwise:assert:len(_) > 0", "every library caller passes at least one array operand (checked as instances of this rule)")
+exception("ASSERT-1", f"{A.OPS}._general_blockwise:assert:len(_) > 0", "every library caller passes at least one array operand (checked as instances of this rule)")
 
 
 @rule("ASSERT-1", props=["C17"], floor=10)
@@ -752,7 +752,7 @@ def assert_rule(ctx: Ctx) -> None:
                     not bad,
                     f"`assert {unparse(t, 60)}`"
                     + (" is a narrowing / internal invariant" if not bad else f" tests operand geometry ({sorted(geom) or 'len of an operand sequence'}): user input can reach it as a bare AssertionError (and it vanishes under -O)"),
-                    sel=f"assert:{unparse(t, 60)}",
+                    sel=f"assert:{ctx.anon(f, t, 60)}",
                 )
             elif isinstance(a, ast.Raise) and a.exc is not None and "AssertionError" in unparse(a.exc):
                 n += 1
